@@ -317,3 +317,28 @@ package pmm
 //@   loop 1 invariant c: dataAddr & 4095 == 0
 //@   loop 1 invariant d: vmm.mapCalls == old(vmm.mapCalls) + index && alloc != nil
 //@   loop 1 invariant log: forall(k, uintptr, k < index ==> vmm.mapLogPage[old(vmm.mapCalls)+k] == mm.Page(dataAddr >> 12) + mm.Page(k) && vmm.mapLogFlags[old(vmm.mapCalls)+k] == vmm.FlagPresent|vmm.FlagRW|vmm.FlagNoExecute && handed[vmm.mapLogFrame[old(vmm.mapCalls)+k]])
+
+// ---- the allocator seams (C01, C02, C09): what mm.SetFrameAllocator installs ---------------
+// pmm.Init registers these two package-level functions as the kernel's frame allocator, first
+// the boot allocator, then the bitmap allocator. Each forwards to the package's single instance,
+// so the hand-out guarantees of the method contracts above hold for the function the rest of
+// the kernel actually calls (mm.AllocFrame), not only for the method.
+//@ func earlyAllocFrame() (f mm.Frame, e *kernel.Error)
+//@   property C02
+//@   concrete (*BootMemAllocator).AllocFrame
+//@   modifies mem, bootMemAllocator.lastAllocFrame, bootMemAllocator.allocCount
+//@   ensures ok: e == nil ==> f == bootMemAllocator.lastAllocFrame && bootMemAllocator.allocCount == old(bootMemAllocator.allocCount) + 1
+//@   ensures oom: e != nil ==> e == errBootAllocOutOfMemory && f == mm.InvalidFrame && bootMemAllocator.allocCount == old(bootMemAllocator.allocCount)
+
+//@ func bitmapAllocFrame() (f mm.Frame, err *kernel.Error)
+//@   property C01 C09
+//@   requires wfAlloc(&bitmapAllocator) && bitmapAllocator.mutex.state == 0
+//@   modifies bitmapAllocator.mutex.state, bitmapAllocator.reservedPages, framePool.freeCount, elems(uint64)
+//@   ensures unlocked: bitmapAllocator.mutex.state == 0
+//@   ensures layout: layoutSame(&bitmapAllocator)
+//@   ensures wf: wfAlloc(&bitmapAllocator)
+//@   ensures oom: err != nil ==> f == mm.InvalidFrame && err == errBitmapAllocOutOfMemory && unchanged(&bitmapAllocator) && forall(q, int, 0 <= q && q < len(bitmapAllocator.pools) ==> pool(&bitmapAllocator, q).freeCount == 0)
+//@   ensures managed: err == nil ==> exists(i, int, 0 <= i && i < len(bitmapAllocator.pools) && inPool(pool(&bitmapAllocator, i), f))
+//@   ensures fresh: err == nil ==> forall(i, int, 0 <= i && i < len(bitmapAllocator.pools) && inPool(pool(&bitmapAllocator, i), f) ==> !old(held(pool(&bitmapAllocator, i), f)) && held(pool(&bitmapAllocator, i), f))
+//@   ensures counts: err == nil ==> forall(i, int, 0 <= i && i < len(bitmapAllocator.pools) && inPool(pool(&bitmapAllocator, i), f) ==> pool(&bitmapAllocator, i).freeCount == old(pool(&bitmapAllocator, i).freeCount) - 1 && bitmapAllocator.reservedPages == old(bitmapAllocator.reservedPages) + 1)
+//@   ensures others: err == nil ==> forall(i, int, 0 <= i && i < len(bitmapAllocator.pools) && inPool(pool(&bitmapAllocator, i), f) ==> othersSame(&bitmapAllocator, i, f))
